@@ -26,7 +26,7 @@ func propC08() Property {
 			{ID: "C08-R3", Desc: "single state writer; single, guarded, non-re-entrant OnLogout/OnLogon site", Min: 5, Run: c08R3},
 			{ID: "C08-R4", Desc: "nothing written after disconnect", Min: 3, Run: c08R4},
 			{ID: "C08-R5", Desc: "logout decision taken before buffered input is drained", Min: 1, Run: c08R5},
-			{ID: "C08-R6", Desc: "a logged-on wrapper state never survives its delegate leaving the logged-on set", Min: 2, Run: c08R6},
+			{ID: "C08-R6", Desc: "a logged-on wrapper state never survives its delegate leaving the logged-on set", Min: 1, Run: c08R6},
 		},
 	}
 }
@@ -260,7 +260,7 @@ func c08R2(c *Ctx) {
 			}
 			for i := 0; i < 2; i++ {
 				g, m := a.B.Args[i], a.B.Args[1-i]
-				if g.Kind == "global" && g.Global.Name() == "msgTypeLogon" && m.IsCallTo("(FieldMap).GetBytes") && m.ArgConstInt(0, p.Tag("tagMsgType")) {
+				if g.Kind == "global" && cn(g.Global.Object()) == "msgTypeLogon" && m.IsCallTo("(FieldMap).GetBytes") && m.ArgConstInt(0, p.Tag("tagMsgType")) {
 					return true
 				}
 			}
@@ -546,7 +546,7 @@ func c08R6(c *Ctx) {
 			f := lo
 			// peel promotion wrappers: find the declared method's constant
 			for _, fnc := range p.Funcs {
-				if fnc.Name() == "IsLoggedOn" && fnc.Signature.Recv() != nil {
+				if fnName(fnc) == "IsLoggedOn" && fnc.Signature.Recv() != nil {
 					rt := namedOf(fnc.Signature.Recv().Type())
 					if rt != nil && embeds(T, rt) {
 						f = fnc
@@ -568,7 +568,7 @@ func c08R6(c *Ctx) {
 		var delegates []ssa.CallInstruction
 		for _, cl := range Calls(fn) {
 			cal := cl.Common().StaticCallee()
-			if cal != nil && cal.Name() == "FixMsgIn" && cal.Signature.Recv() != nil && types.Identical(cal.Signature.Recv().Type(), inSess) {
+			if cal != nil && fnName(cal) == "FixMsgIn" && cal.Signature.Recv() != nil && types.Identical(cal.Signature.Recv().Type(), inSess) {
 				delegates = append(delegates, cl)
 			}
 		}
@@ -588,11 +588,11 @@ func c08R6(c *Ctx) {
 			n++
 			d := p.ReachCond(b)
 			okG := d.Implies(func(a *Atom) bool {
-				if a.Rel != "" || !a.Val || a.B.Kind != "call" || a.B.Method == nil || a.B.Method.Name() != "IsLoggedOn" {
+				if a.Rel != "" || !a.Val || a.B.Kind != "call" || a.B.Method == nil || cn(a.B.Method) != "IsLoggedOn" {
 					return false
 				}
 				return a.B.Recv != nil && a.B.Recv.Mentions(func(x *Org) bool {
-					return x.Kind == "call" && x.Callee != nil && x.Callee.Name() == "FixMsgIn"
+					return x.Kind == "call" && x.Callee != nil && fnName(x.Callee) == "FixMsgIn"
 				})
 			})
 			c.Check(okG, name, p.InstrPos(r), "wrapper-keeps-logged-on", "returns itself only while the delegate's result is still logged on",
